@@ -134,6 +134,29 @@ def check_flat(ctx, rng, n):
                                   cap=30, sectors_api=_sectors)
 
 
+def boundary_images(rng, targets, ncells=4):
+    """Stream-optimised images (grain 8) whose grains 1 and 3.. have an on-disk record (header + deflate data) of every
+    size in `targets`; yields (record_bytes, lba, vf, expected_bytes, noise_by_grain)."""
+    import zlib
+
+    grain = 8
+    gbytes = grain * 512
+    for lba in (True, False):
+        hdr = 12 if lba else 4
+        found = {}
+        for noise in range(300, 620):
+            ln = len(zlib.compress(patterns.npat(1, noise, 0, gbytes), 6)) + hdr
+            if ln in targets and ln not in found:
+                found[ln] = noise
+        for total, nz in sorted(found.items()):
+            ents = [("D", 1), ("D", 2), ("Z", 0), ("D", 3)] + [("D", 4 + i) if i % 2 == 0 else ("U", 0) for i in range(ncells - 4)]
+            noise = {q: (0 if q == 2 else nz) for _, q in ents if q}
+            vf, info = enc_vmdk.build_hosted(ents, [True] * (-(-ncells // 4)), capacity=ncells * grain, grain=grain, gtes=4, footer=True,
+                                             compressed=True, lba=lba, tight=rng.random() < 0.5, noise=noise, max_pos=max(noise) + 2)
+            exp = b"".join(patterns.npat(q, noise[q], 0, gbytes) if k == "D" else bytes(gbytes) for k, q in ents)
+            yield total, lba, vf, exp, noise, ents
+
+
 def check_compressed_boundary(ctx, rng, thorough):
     """Stream-optimised grains whose on-disk record (header + deflate data) has every size around the 512-byte sector
     boundary: the reader must fetch the continuation sectors exactly when the record crosses the first sector."""
